@@ -223,7 +223,7 @@ func (e *MetaExecutor) MeasurementNames(nodeID uint64, database string, retentio
 		MarkUnusable(conn)
 		return nil, err
 	}
-	return resp.Names, nil
+	return resp.Names, resp.Err
 }
 
 func (e *MetaExecutor) TagKeys(nodeID uint64, shardIDs []uint64, cond influxql.Expr) ([]tsdb.TagKeys, error) {
@@ -248,7 +248,7 @@ func (e *MetaExecutor) TagKeys(nodeID uint64, shardIDs []uint64, cond influxql.E
 		MarkUnusable(conn)
 		return nil, err
 	}
-	return resp.TagKeys, nil
+	return resp.TagKeys, resp.Err
 }
 
 func (e *MetaExecutor) TagValues(nodeID uint64, shardIDs []uint64, cond influxql.Expr) ([]tsdb.TagValues, error) {
@@ -273,7 +273,7 @@ func (e *MetaExecutor) TagValues(nodeID uint64, shardIDs []uint64, cond influxql
 		MarkUnusable(conn)
 		return nil, err
 	}
-	return resp.TagValues, nil
+	return resp.TagValues, resp.Err
 }
 
 func (e *MetaExecutor) SeriesSketches(nodeID uint64, database string) (estimator.Sketch, estimator.Sketch, error) {
@@ -297,7 +297,7 @@ func (e *MetaExecutor) SeriesSketches(nodeID uint64, database string) (estimator
 		MarkUnusable(conn)
 		return nil, nil, err
 	}
-	return resp.Sketch, resp.TSSketch, nil
+	return resp.Sketch, resp.TSSketch, resp.Err
 }
 
 func (e *MetaExecutor) MeasurementsSketches(nodeID uint64, database string) (estimator.Sketch, estimator.Sketch, error) {
@@ -321,7 +321,7 @@ func (e *MetaExecutor) MeasurementsSketches(nodeID uint64, database string) (est
 		MarkUnusable(conn)
 		return nil, nil, err
 	}
-	return resp.Sketch, resp.TSSketch, nil
+	return resp.Sketch, resp.TSSketch, resp.Err
 }
 
 func (e *MetaExecutor) FieldDimensions(nodeID uint64, shardIDs []uint64, m *influxql.Measurement) (fields map[string]influxql.DataType, dimensions map[string]struct{}, err error) {
@@ -372,7 +372,7 @@ func (e *MetaExecutor) MapType(nodeID uint64, shardIDs []uint64, m *influxql.Mea
 		MarkUnusable(conn)
 		return influxql.Unknown, err
 	}
-	return resp.Type, nil
+	return resp.Type, resp.Err
 }
 
 func (e *MetaExecutor) CreateIterator(nodeID uint64, shardIDs []uint64, ctx context.Context, m *influxql.Measurement, opt query.IteratorOptions) (query.Iterator, error) {
